@@ -17,6 +17,8 @@ from fsmc import bases, tissue as T, fsutil, solvecase as SC
 from fsmc.explorer import ProductSystem, ListSystem
 from fsmc.ref import nnls as RN
 
+import os
+REPO = os.environ.get("FORSYS_REPO", "/repo")
 PID = "C05"
 RULE = ("instances = tissue (equilibrium | deformed amp x pattern | scaled | sub-tissue | cell deletions) x rhs (static | velocity) x allow_negatives x method; "
         "non-trivial = at least one junction row and one unknown; classes = (rows, cols, path, rhs, method, active-set size)")
@@ -149,7 +151,7 @@ def judge(r, method, allow_negatives, consistent, viol, known, tags):
 
 
 FAMILIES = None
-FURROW = ["/repo/tests/data/furrow_gauss_velocity/stage%d.dmp" % i for i in range(8)]
+FURROW = [REPO + "/tests/data/furrow_gauss_velocity/stage%d.dmp" % i for i in range(8)]
 
 
 def tissue_variants(base, amps, patterns, scales):
@@ -318,7 +320,7 @@ def build(tier, seed):
                 Solver("bumps", [["whole", "v5x5"]], 2, bumps),
                 ListSystem("shipped-fixtures", [{"files": FURROW[:2], "t": 0, "rhs": rh, "neg": False, "method": m}
                                                 for rh in ("static", "velocity") for m in (None, "lsq_linear")] +
-                           [{"files": ["/repo/tests/data/initial_furrow.dmp"], "t": 0, "rhs": "static", "neg": True, "method": None}], eval_fixture),
+                           [{"files": [REPO + "/tests/data/initial_furrow.dmp"], "t": 0, "rhs": "static", "neg": True, "method": None}], eval_fixture),
                 Solver("subtissues", subs, 1, [["eq"], ["noise", 0.08, 1]]),
                 Solver("deletions", deletions("v5x5", 2), 1, [["eq"], ["noise", 0.08, 2], ["noise", 0.2, 0]])]
     var = tissue_variants(None, [0.02, 0.08, 0.2], [0, 1, 2, 3], [1e-3, 1e3])
@@ -328,6 +330,6 @@ def build(tier, seed):
             Solver("bumps", [["whole", "v5x5"]], 3, bumps),
             ListSystem("shipped-fixtures", [{"files": FURROW, "t": t, "rhs": rh, "neg": ng, "method": m}
                                             for t in (0, 3, 7) for rh in ("static", "velocity") for ng in (False, True) for m in (None, "lsq", "lsq_linear", "fix_stress")] +
-                       [{"files": [f], "t": 0, "rhs": "static", "neg": False, "method": m} for f in ("/repo/tests/data/initial_furrow.dmp", "/repo/tests/data/last_furrow.dmp", "/repo/tests/data/12_12/step_20.dmp") for m in (None, "lsq")], eval_fixture),
+                       [{"files": [f], "t": 0, "rhs": "static", "neg": False, "method": m} for f in (REPO + "/tests/data/initial_furrow.dmp", REPO + "/tests/data/last_furrow.dmp", REPO + "/tests/data/12_12/step_20.dmp") for m in (None, "lsq")], eval_fixture),
             Solver("subtissues", subs, 2, [["eq"], ["noise", 0.08, 1], ["noise", 0.2, 2]]),
             Solver("deletions", deletions("v6x5", 3), 2, [["eq"], ["noise", 0.08, 2], ["noise", 0.2, 0]])]
